@@ -2314,7 +2314,8 @@ func (mgr *Manager) GetView() View {
 }
 
 func (v *View) fetch() error {
-	if len(v.indexes) != 0 {
+	if len(v.indexes) != 0 || v.tagDetails != nil {
+		// already fetched, possibly while no index existed yet
 		return nil
 	}
 	v.tagDetails = make(map[string]query.TagDetails)
